@@ -5,6 +5,10 @@ HERE = os.path.dirname(os.path.dirname(os.path.abspath(__file__)))
 
 # id -> (technique, level text, level note, design ref)
 CLAIMED = {
+ "C12": ("exhaustive small-scope enumeration (patterns x orderings, all invalid permutation vectors n<=4) + proptest-generated matrices and update/refactor histories against a dense LDL' backward-error oracle",
+         "Exploration: every triu pattern for n<=4 (5 in thorough) under every ordering, every non-permutation vector, and >200k generated matrices/histories are factored; each Ok result must satisfy the no-pivot backward-error bound, the stepwise pivot/regularisation rule, exact symbolic fill, inertia count, solve residual and refactor==fresh bitwise; each reject must be the documented error.",
+         "Trusted: dense reference recurrences in harness/src/props/c12.rs; the standard gamma_n|L||D||L'| bound with constant 10(n+2); generic matrices with factor growth >1e12 are discarded (counted), strictly diagonally dominant ones never are.",
+         "DESIGN.md §4 C12"),
  "C16": ("exhaustive small-scope enumeration + proptest-generated cases against a dense reference model",
          "Exploration: every sparsity pattern up to 3x3/4x3, every short triplet list and every small raw encoding is enumerated, plus tens of thousands of generated larger cases; each is compared with == against a dense model. Failing cases shrink to a replay file. Does not prove absence beyond the enumerated scope.",
          "Trusted: the dense model / is_canonical predicate in harness/src/props/c16.rs; exact arithmetic on small integers.",
